@@ -16,6 +16,17 @@ CLAIMS = {
         "facts proved by CBMC code contracts (back end A, goto-instrument --dfcc --enforce-contract).",
    note=NOTE_COMMON + "Undecided remainder (not claimed): IEEE rounding inside each branch, f_PS/f_S/F1..F3 accuracy vs definition beyond the listed obligations, complex dilog.",
    technique="code contracts on extracted real functions: WP/SMT (z3 NRA) + CBMC DFCC contracts", design='5 C01'),
+ 'C08': dict(
+   text="Contracts on the real THDM construction code for ALL admissible mass-basis inputs: the lambda_1..5 inversion composed with the tree-level "
+        "EWSB and the three Higgs mass matrices has exactly the input spectrum (R(alpha)^T M2_hh R(alpha) = diag(mh^2,mH^2), Goldstone eigenvectors and "
+        "masses MZ, MW, physical masses mA, mH+), MW/MZ reproduced from the SM input, calculate_Mhh returns (mh,mH) without tachyon flag and the heavy "
+        "eigenvector is +-(cos alpha, sin alpha) under the eigen-solver's documented contract, the Goldstone reordering puts MZ/MW at index 0, the mixing-angle "
+        "getters return the input sin/cos(beta-alpha) for EITHER eigenvector sign, and for all six Yukawa types the fermion mass matrices equal the SM ones "
+        "with no division by zero.  Two obligations failed on the pinned tree with replayed counterexamples (mixing angle, aligned zeta=cot beta) and were repaired by fix: commits.",
+   note=NOTE_COMMON + "A-LINALG (C12) is assumed for fs_diagonalize_hermitian and the SVD (singular values of a matrix with M^dagger M = diag(m^2) are |m|); "
+        "cos(beta-alpha) >= 1e-6 is required for the mixing-angle clause (at cos(beta-alpha)=0 the sign of sin(beta-alpha) is a field redefinition); "
+        "the gauge-basis round trip is functional determinism of the same mass-matrix code; IEEE rounding is not covered.",
+   technique="WP/symbolic execution of extracted real methods + z3 NRA with lemma chaining; numeric refutation + native replay for counterexamples", design='5 C08'),
  'C18': dict(
    text="All clauses of C18 are postconditions of the ten real uncertainty functions: floors (2.3e-10 / 2e-12), non-negativity, finiteness, "
         "1L = |a2L| + delta2L, 0L = documented sum are proved in IEEE-754 arithmetic by CBMC code contracts for all doubles satisfying the stated "
